@@ -339,7 +339,6 @@ func C08() *check.Property {
 	}
 }
 
-
 // INCORPORATE-BEFORE-DECIDE: the value is part of the state before the state decides what to emit.
 func ruleIncorporateBeforeDecide() check.Rule {
 	return check.Rule{
